@@ -477,8 +477,12 @@ def check_builder(ctx: Ctx, f: FuncInfo, src_kind: str) -> None:
     it = loops[0].iter
     it_src = env.get(unparse(it), it)
     if not (isinstance(it_src, ast.Call) and call_name(it_src) == ("sorted",)):
-        ctx.violation("C20-D1", f, loops[0], "items are not folded in sorted order: the automaton (and its stored repr) would depend on the order of the input")
-        return
+        # positively unsorted: the argument itself, or a plain container copy of it
+        raw = it_src.args[0] if isinstance(it_src, ast.Call) and call_name(it_src) in (("list",), ("tuple",), ("set",), ("frozenset",)) and it_src.args else it_src
+        if isinstance(raw, ast.Name) and raw.id == arg or unparse(raw) in (f"cls.pinwords_for_basis(({arg},))", f"cls.pinwords_for_basis({arg})"):
+            ctx.violation("C20-D1", f, loops[0], "items are not folded in sorted order: the automaton (and its stored repr) would depend on the order of the input", robust=True)
+            return
+        raise AnalysisError(f"{f.where}: whether the items are folded in sorted order (`{unparse(it_src)[:60]}`) is not recognised")
     inner = it_src.args[0]
     inner_src = env.get(unparse(inner), inner)
     want_src = {"pinwords": (f"cls.pinwords_for_basis(({arg},))", f"cls.pinwords_for_basis({arg})"), "db": (arg,)}[src_kind]
